@@ -86,6 +86,9 @@ pub struct FaultScript {
     pub outage_at_call: Option<usize>,
     /// number of failing get_best_block attempts after which the outage ends
     pub outage_polls: usize,
+    /// how a failing RPC looks to the client: 0 = connection refused (socket error), 1 = the node hangs up before
+    /// answering (request not processed), 2 = the node processes the request and hangs up before the reply is out
+    pub kind: u8,
     /// single failures of get_block: (n-th get_block call counted from arming, persistent?)
     pub fail_get_block_nth: Option<(usize, bool)>,
     /// single failure of get_header
@@ -574,14 +577,15 @@ impl BlockSource for Node {
 /// The jsonrpc transport handed to bitcoincore_rpc.
 pub struct NodeTransport(pub Arc<Node>);
 
-#[derive(Debug)]
-struct Refused;
-impl fmt::Display for Refused {
-    fn fmt(&self, f: &mut fmt::Formatter) -> fmt::Result {
-        write!(f, "connection refused (simnode outage)")
-    }
+fn transport_error(kind: u8) -> jsonrpc::Error {
+    use jsonrpc::simple_http::Error as HttpError;
+    let e = if kind == 0 {
+        HttpError::SocketError(std::io::Error::new(std::io::ErrorKind::ConnectionRefused, "connection refused (simnode outage)"))
+    } else {
+        HttpError::HttpResponseTooShort { actual: 0, needed: 12 }
+    };
+    jsonrpc::Error::Transport(Box::new(e))
 }
-impl std::error::Error for Refused {}
 
 fn rpc_err(id: serde_json::Value, code: i32, msg: &str) -> jsonrpc::Response {
     jsonrpc::Response {
@@ -627,8 +631,13 @@ impl jsonrpc::client::Transport for NodeTransport {
                 };
                 let txid = tx.compute_txid();
                 if st.gate(false) {
+                    let kind = st.fault.kind;
+                    if kind == 2 {
+                        // processed, but the reply never makes it
+                        let _ = st.send_raw_transaction(&tx);
+                    }
                     st.log_event(Call::SendRawTransaction(txid), Verdict::TransportError);
-                    return Err(jsonrpc::Error::Transport(Box::new(Refused)));
+                    return Err(transport_error(kind));
                 }
                 drop(st);
                 crate::faults::point("rpc:sendrawtransaction:pre");
@@ -660,7 +669,7 @@ impl jsonrpc::client::Transport for NodeTransport {
                     .unwrap_or(Txid::all_zeros());
                 if st.gate(false) {
                     st.log_event(Call::GetRawTransaction(txid), Verdict::TransportError);
-                    return Err(jsonrpc::Error::Transport(Box::new(Refused)));
+                    return Err(transport_error(st.fault.kind));
                 }
                 let verbose = params.get(1).map_or(false, |v| v.as_bool().unwrap_or(v.as_i64().unwrap_or(0) != 0));
                 let (tx, blockhash) = if let Some(t) = st.mempool.iter().find(|t| t.compute_txid() == txid) {
@@ -702,9 +711,16 @@ impl jsonrpc::client::Transport for NodeTransport {
                     }
                 }
             }
+            "getblockcount" => {
+                // the Carrier's own "is it back?" probe: like a poll, it marks the passing of time for the fault script
+                if st.gate(true) {
+                    return Err(transport_error(st.fault.kind));
+                }
+                Ok(rpc_ok(id, serde_json::json!(st.tip_height())))
+            }
             "getblockchaininfo" => {
                 if st.gate(false) {
-                    return Err(jsonrpc::Error::Transport(Box::new(Refused)));
+                    return Err(transport_error(st.fault.kind));
                 }
                 let tip = st.tip_hash();
                 Ok(rpc_ok(
